@@ -358,7 +358,7 @@ PROPS["C02"] = mux_prop(
 
 PROPS["C03"] = mux_prop(
     "C03", pick("c03_", "c02_w_plain", "c02_w_vec_1_2", extra=["c12_atomic_writer_in_ack_k0", "c12_atomic_writer_in_ack_k1", "c12_atomic_writer_in_ack_k2", "c10_push_est_full", "c10_ack_est", "c04_threshold_con_recv", "c04_threshold_ack_recv", "c07_accept",
-                                                                "c12_race_ack_w0", "c12_race_ack_w1", "c12_race_ack_w2", "c12_race_ack_w3", "c12_race_ack_w6"]), thorough_only={"c02_w_plain_l3"},
+                                                                "c12_race_ack_w0", "c12_race_ack_w1", "c12_race_ack_w2", "c12_race_ack_w3", "c12_race_ack_w6"]), thorough_only={"c02_w_plain_l3"}, atomics=True,
     note="one transition of the credit accounting invariant credit + in-flight + queued + consumed-unacked + acks-in-flight = rwnd",
     bounds=dict(windows="symbolic u32", thresholds="symbolic u32 >= 1", counter="symbolic < threshold", queue="capacity 2"),
     outside=COMMON_OUTSIDE + ["the invariant over whole two-party runs is composed by hand from the per-transition checks (DESIGN.md 4-C03)"],
@@ -403,7 +403,7 @@ PROPS["C11"] = mux_prop(
     assumptions=[], explanation="send_datagram refuses hosts > 255 with no other effect, else emits exactly one frame carrying the four fields; the receive path appends at the tail or drops when full, never blocks, never fails; what send_datagram emits decodes at the peer for payloads of 0..4 bytes.")
 
 PROPS["C12"] = mux_prop(
-    "C12", pick("c12_", extra=["c03_credit_return"]),
+    "C12", pick("c12_", extra=["c03_credit_return"]), atomics=True,
     note="the other party's whole operation runs before / at the k-th log site or k-th atomic operation of / after this party's operation",
     bounds=dict(parties="one writer poll vs one acknowledge(n>=1) or one close; either party may be the one that is interrupted",
                 scheduling_points="before the operation, at each place where poll_obtain_write_permission logs (up to 5), immediately before each of its first 5 atomic operations, immediately before each of the first 3 atomic operations of acknowledge / disallow_write, after the operation",
